@@ -518,6 +518,13 @@ func geometry(prog parser.Program) string {
 			}
 			sort.Slice(kids, func(i, j int) bool { return le(kids[i].Start, kids[j].Start) && kids[i].Start != kids[j].Start })
 			for i, k := range kids {
+				// the tree's own ordering and containment (Position.GtEq, Range.Contains) must say the same
+				if (!r.Contains(k.Start) || !r.Contains(k.End)) && le(r.Start, k.Start) && le(k.End, r.End) && problem == "" {
+					problem = fmt.Sprintf("Range.Contains: parent %s %s does not contain the ends of its child %s", v.Type().Name(), showRange(r), showRange(k))
+				}
+				if i > 0 && le(kids[i-1].End, k.Start) && !k.Start.GtEq(kids[i-1].End) && problem == "" {
+					problem = fmt.Sprintf("Position.GtEq: sibling %s does not come after %s", showRange(k), showRange(kids[i-1]))
+				}
 				if (!le(r.Start, k.Start) || !le(k.End, r.End)) && problem == "" {
 					problem = fmt.Sprintf("child range %s is not inside its parent %s %s", showRange(k), v.Type().Name(), showRange(r))
 				}
